@@ -230,6 +230,8 @@ def run (ctx):
   _skipwords(ctx, repo)
   _udp_zero(ctx, repo)
   _hdr_copies(ctx, repo)
+  from . import c15b
+  ctx.stat('TLV value slices compared', c15b.tlv_value_slices(ctx, [c for mn in ('tcp', 'dhcp', 'lldp', 'icmpv6', 'ipv6') for c in repo.mod(PK + '.' + mn).classes.values()], 'D2'))
   _option_walkers(ctx, repo)
 
 def _bitfields (ctx, repo, mod, cls, pf, hf, Pf, H, hcall):
